@@ -10,10 +10,11 @@ Matches(s, o) == /\ s.status = o.status
 \* E.execs = how many registered methods ran
 TReply == /\ IsEvent("Reply")
           /\ \/ (Refuse /\ E.execs = 0)
+             \/ (RefuseCharset /\ E.execs = 0)
              \/ (pc = "dispatched" /\ req.body # "non_utf8" /\ Reply /\ E.execs = execs)
              \/ (ReplyUndecodable /\ E.execs = 0)
           /\ Matches(reply', E)
 TSilent == Dispatch /\ Silent
 TraceNext == TReply \/ TSilent
-TraceConstraint == RefuseExecutesNothing /\ RelayExact /\ ExecsAsDispatcher /\ Progress
+TraceConstraint == RefuseExecutesNothing /\ RelayExact /\ ExecsAsDispatcher /\ UnknownCharsetNeverFails /\ Progress
 =============================================================================
